@@ -520,6 +520,8 @@ def map_exc(e):
     n = type(e).__name__
     if isinstance(e, re.error):
         return 'error'
+    if isinstance(e, AttributeError):
+        return 'AttributeError'
     return n if n in ('KeyError', 'TypeError', 'ValueError', 'OverflowError', 'AttributeError', 'ZeroDivisionError',
                       'AssertionError', 'RuntimeError') else 'other'
 
@@ -632,6 +634,10 @@ def run(scen, ctx):
             orc['c09'] = f'the argument was modified: now {val!r}'
         scen['_oracle'] = orc
         return out
+    if op == 'process':
+        return None   # handled by run_process (needs its own class creation)
+    if op in ('construct', 'unchecked', 'fromdict', 'dictview', 'copy', 'replace', 'setattr', 'delattr'):
+        return run_instance_op(scen, ctx)
     if op == 'into_dyn':
         val = ctx.dec(scen['val'])
         try:
@@ -655,6 +661,76 @@ def run(scen, ctx):
         except BaseException as e:  # noqa
             return {'raises': map_exc(e)}
     raise ValueError('unknown op ' + op)
+
+
+def run_process(scen):
+    """op `process`: create the declared classes; report the LAST one's processed form (or the creation error)"""
+    ctx = LiveCtx()
+    ctx.spell = scen.get('spell', 0)
+    decl = scen.get('decl') or {}
+    for name, vals in decl.get('enums', []):
+        ctx.add_enum(name, vals)
+    for name, base, attrs in decl.get('subs', []):
+        ctx.add_sub(name, base, {k: ctx.dec(v) for k, v in (attrs or {}).items()})
+    cls = None
+    for d in scen['decls']:
+        try:
+            cls = ctx.add_class(d)
+        except TypeError:
+            return ctx, {'classError': 'TypeError'}
+        except ValueError:
+            return ctx, {'classError': 'ValueError'}
+    e = ctx.class_entry(cls.__name__, cls)
+    info = cls.__pane_info__
+    out = {'name': cls.__name__, 'fields': e['info']['fields'], 'fieldTys': e['fieldTys'], 'fieldConv': e['fieldConv'],
+           'inFormat': e['info']['inFormat'], 'outFormat': e['info']['outFormat'], 'allowExtra': e['info']['allowExtra'],
+           'minPos': e['info']['minPos'], 'maxPos': e['info']['maxPos'], 'eq': info.opts.eq, 'order': info.opts.order,
+           'frozen': info.opts.frozen, 'unsafeHash': info.opts.unsafe_hash, 'kwOnly': info.opts.kw_only,
+           'params': [p.__name__ for p in getattr(cls, '__parameters__', ())], 'nHandlers': len(info.opts.class_handlers)}
+    return ctx, {'class': out}
+
+
+def run_instance_op(scen, ctx):
+    op = scen['op']
+    cls = ctx.used.get(scen['cls']) or ctx.classes[scen['cls']]
+    args = [ctx.dec(a) for a in scen.get('args', [])]
+    kwargs = {k: ctx.dec(v) for k, v in scen.get('kwargs', [])}
+    snaps = [snapshot(a) for a in args] + [snapshot(v) for v in kwargs.values()]
+    def done(out):
+        if [snapshot(a) for a in args] + [snapshot(v) for v in kwargs.values()] != snaps:
+            scen['_oracle'] = {'c09': 'a constructor argument was modified'}
+        return out
+    if op == 'construct':
+        return done(result_of(ctx, lambda: cls(*args, **kwargs)))
+    if op == 'unchecked':
+        return done(result_of(ctx, lambda: cls.make_unchecked(*args, **kwargs)))
+    if op == 'fromdict':
+        st = scen.get('set')
+        return done(result_of(ctx, lambda: cls.from_dict_unchecked(dict(kwargs), set_fields=None if st is None else set(st))))
+    obj = ctx.dec(scen['obj'])
+    if op == 'dictview':
+        try:
+            return {'ok': ctx.enc(obj.dict(set_only=scen.get('set_only', False), rename=scen.get('rename')))}
+        except BaseException as e:  # noqa
+            return {'raises': map_exc(e)}
+    if op == 'copy':
+        import copy as _copy
+        return result_of(ctx, lambda: (_copy.deepcopy if scen.get('deep') else _copy.copy)(obj))
+    if op == 'replace':
+        return done(result_of(ctx, lambda: obj.__replace__(**kwargs)))
+    if op == 'setattr':
+        try:
+            setattr(obj, scen['name'], ctx.dec(scen['val']))
+            return {'ok': ctx.enc(obj)}
+        except BaseException as e:  # noqa
+            return {'raises': map_exc(e)}
+    if op == 'delattr':
+        try:
+            delattr(obj, scen['name'])
+            return {'ok': ctx.enc(obj)}
+        except BaseException as e:  # noqa
+            return {'raises': map_exc(e)}
+    raise ValueError(op)
 
 
 _TB_DROP = re.compile(r'^\s*(Traceback \(most recent call last\):|File ".*", line \d+.*|[\^~]+\s*)$')
